@@ -399,12 +399,13 @@ class Interpreter:
             (obj._tablename, nickname, obj)
             for nickname, obj in globals.persistent_nicknames.items()
         ]
-        already_saved = set(obj._id for (_, _, obj) in relevant_objs)
+        # (ids are per table: rows of different tables may carry the same id)
+        already_saved = set((obj._tablename, obj._id) for (_, _, obj) in relevant_objs)
         # and those known by their tablename, if not already in the list
         relevant_objs.extend(
             (tablename, None, obj)
             for tablename, obj in globals.persistent_objects_by_table.items()
-            if obj._id not in already_saved
+            if (obj._tablename, obj._id) not in already_saved
         )
         # filter out those in tables that are not history-backed
         relevant_objs = (
